@@ -3,6 +3,7 @@
 # certain rights in this software.
 """Expand all macros in place in a Circuit."""
 
+from numbers import Integral
 from typing import Dict
 
 from jaqalpaq.error import JaqalError
@@ -12,7 +13,7 @@ from jaqalpaq.core.block import BlockStatement, LoopStatement
 from jaqalpaq.core.gatedef import GateStatement
 from jaqalpaq.core.macro import Macro
 from jaqalpaq.core.register import Register, NamedQubit
-from jaqalpaq.core.parameter import AnnotatedValue, Parameter
+from jaqalpaq.core.parameter import AnnotatedValue, Parameter, ParamType
 
 
 def expand_macros(circuit, preserve_definitions=False):
@@ -129,15 +130,28 @@ class GateReplacer(Visitor):
         return BlockStatement(
             parallel=block.parallel,
             subcircuit=block.subcircuit,
-            iterations=self.visit(block.iterations),
+            iterations=self.substitute_count(block.iterations),
             statements=new_statements,
         )
 
     def visit_LoopStatement(self, loop: LoopStatement):
         return LoopStatement(
-            iterations=self.visit(loop.iterations),
+            iterations=self.substitute_count(loop.iterations),
             statements=self.visit(loop.statements),
         )
+
+    def substitute_count(self, count):
+        """Substitute arguments in a loop or subcircuit count and make sure
+        that what comes out can still be a count."""
+        new_count = filter_float(self.visit(count))
+        if isinstance(new_count, AnnotatedValue):
+            if new_count.kind not in (ParamType.INT, ParamType.NONE):
+                raise JaqalError(
+                    f"Count {new_count.name} of kind {new_count.kind} is not an integer"
+                )
+        elif not isinstance(new_count, Integral):
+            raise JaqalError(f"Count {new_count} is not an integer")
+        return new_count
 
     def visit_GateStatement(self, gate: GateStatement):
         new_parameters = {
